@@ -254,6 +254,99 @@ impl FileView {
 //@at /^\s*assert\(/ nth=3 before
                         assert(self.start <= new_pos && new_pos <= self.end); [[L: current_arm_assert]]
 //@end
+
+// `Seek::stream_position` / `Seek::rewind` OVERRIDES.  FileView has none today (std's provided methods are, by
+// definition, `self.seek(SeekFrom::Current(0))` and `self.seek(SeekFrom::Start(0)).map(|_| ())`): the blocks are
+// `//@optional` -- skipped on the pinned tree -- and put an override that an edit adds under the contract the Seek
+// trait documents for it: the position RELATIVE TO THE VIEW START, i.e. what `seek(SeekFrom::Current(0))` returns,
+// and nothing moves.  Measure 2: above `seek`'s (0/1), so the override may call `seek` but not the other way round.
+//@extract method bigtools/src/utils/file/file_view.rs stream_position "impl Seek for FileView"
+//@optional
+//@rule R15
+//@rule R16
+//@rule R6
+//@sub /io::Result<(\w+|\(\))>/ => Result<\1, IoError>
+//@sub /io::SeekFrom/ => SeekFrom min=0
+//@ret r
+//@sig
+    requires
+        [[L: pre_invariant]]
+        old(self).wf(),
+        [[L: pre_cursor_known]]
+        old(self).cursor_known(),
+    ensures
+        [[L: invariant_preserved]]
+        final(self).wf(),
+        [[L: window_unchanged]]
+        final(self).same_window(old(self)),
+        [[L: returns_position_relative_to_view_start_like_seek_current_0]]
+        r matches Ok(v) ==> v == view_seek(old(self).win().len() as int, old(self).vpos_or0(), SeekFrom::Current(0)) && v == old(self).vpos(),
+        [[L: cursor_does_not_move]]
+        r is Ok ==> final(self).cursor_known() && final(self).vpos() == old(self).vpos(),
+        [[L: err_forgets_cursor]]
+        r is Err ==> !final(self).cursor_known(),
+    decreases
+        [[L: termination]]
+        2int,
+//@end
+//@extract method bigtools/src/utils/file/file_view.rs rewind "impl Seek for FileView"
+//@optional
+//@rule R15
+//@rule R16
+//@rule R6
+//@sub /io::Result<(\w+|\(\))>/ => Result<\1, IoError>
+//@sub /io::SeekFrom/ => SeekFrom min=0
+//@ret r
+//@sig
+    requires
+        [[L: pre_invariant]]
+        old(self).wf(),
+    ensures
+        [[L: invariant_preserved]]
+        final(self).wf(),
+        [[L: window_unchanged]]
+        final(self).same_window(old(self)),
+        [[L: cursor_at_view_start_like_seek_start_0]]
+        r is Ok ==> final(self).cursor_known() && final(self).vpos() == 0,
+        [[L: err_forgets_cursor]]
+        r is Err ==> !final(self).cursor_known(),
+    decreases
+        [[L: termination]]
+        2int,
+//@end
+
+// `Tell::tell` (utils/file/tell.rs, `impl<S: Seek> Tell for S`), instantiated at S = FileView: the position of the
+// isolated range, nothing moves.  R11: a call `self.stream_position()` is read as `self.seek(SeekFrom::Current(0))`
+// -- that IS std's provided method, and an override in `impl Seek for FileView` is held to exactly that by the
+// block above (assume/guarantee: if the override differs, `stream_position/...` fails there).
+//@extract method bigtools/src/utils/file/tell.rs tell "impl<S: std::io::Seek> Tell for S"
+//@rule R15
+//@rule R16
+//@sub /std::io::Result<(\w+)>/ => Result<\1, IoError> min=1
+//@sub /(?:std::)?(?:io::)?SeekFrom::/ => SeekFrom:: min=0
+//@sub /self\.stream_position\(\)/ => self.seek(SeekFrom::Current(0)) min=0
+//@ret r
+//@sig
+    requires
+        [[L: pre_invariant]]
+        old(self).wf(),
+        [[L: pre_cursor_known]]
+        old(self).cursor_known(),
+    ensures
+        [[L: invariant_preserved]]
+        final(self).wf(),
+        [[L: window_unchanged]]
+        final(self).same_window(old(self)),
+        [[L: tells_position_relative_to_view_start]]
+        r matches Ok(v) ==> v == old(self).vpos(),
+        [[L: cursor_does_not_move]]
+        r is Ok ==> final(self).cursor_known() && final(self).vpos() == old(self).vpos(),
+        [[L: err_forgets_cursor]]
+        r is Err ==> !final(self).cursor_known(),
+    decreases
+        [[L: termination]]
+        3int,
+//@end
 }
 
 } // verus!
